@@ -11,4 +11,6 @@ go build ./... || { echo "does not build"; git checkout -- .; exit 2; }
 go test -vet=off -count=1 ./parser ./evaluator 2>&1 | tail -2
 cd /verif && bin/verif check "$PROP" --tier "$TIER"; RC=$?
 cd /repo && git checkout -- . && rm -f parser/y.output
+# restore evidence written by the run against the seeded tree
+git -C /verif checkout -- "evidence/$PROP.json" 2>/dev/null
 echo "seed result: rc=$RC"
